@@ -6,7 +6,7 @@ import tempfile
 import warnings
 from xml.parsers import expat
 
-from . import build as B, gen_pos, treejson as TJ
+from . import build as B, gen_fuzz, gen_pos, treejson as TJ
 from .build import ABSENT, BLANK
 from .core import Outcome, stable_hash
 from .treejson import E
@@ -155,6 +155,15 @@ def run_c08(tier, seed):
     oc = Outcome('C08')
     rng = random.Random(seed * 13 + 1)
     docs = list(documents(tier))
+    for lbl, d in list(docs):
+        if rng.random() < (0.5 if tier == 'quick' else 3.0):
+            for _ in range(1 if tier == 'quick' else 3):
+                try:
+                    m = gen_fuzz.mutate(rng, d)
+                    TJ.to_text(m)
+                    docs.append(('fuzz|' + lbl, m))
+                except Exception:  # noqa: BLE001
+                    pass
     texts = [TJ.to_text(d) for _, d in docs]
     reqs = [{'op': 'classify', 'doc': TJ.parse(t)} for t in texts]
     resps = lean.run_batch(reqs)
